@@ -14,6 +14,7 @@ CONSTANTS
   MaxRejects = 1
   Policies = {"ALL", "LEADER", "NONE"}
   UseCheckpoint = TRUE
+  MaxPause = 1
   Batch = 1
   IgnoreTaints = TRUE
 CHECK_DEADLOCK FALSE
